@@ -184,6 +184,10 @@ Judge ==
           /\ ((~Refusal(L) => C12_StaleCleared(S, a.s, a.ids, a.idx, ridx')) \/ Say("VERDICT", "C12", "StaleIndexNotCleared"))
           /\ (C07_QueryDrops(S, T, a, L) \/ Say("VERDICT", "C07", "QueryKeepsCorrupt")))
     /\ (op = "CompareStatus" => (C12_Compare(S, a, L) \/ Say("VERDICT", "C12", "ComparePartition")))
+    \* a transfer that ends without having shown its status to the caller (validate_status) has reported nothing: fine when
+    \* nothing requested is missing on both sides, a silent loss otherwise
+    /\ ((op = "TransferBegin" /\ "silent" \in DOMAIN e.last /\ Loadable(S, a.src, a.req, a.shallow)) =>
+            (XStatus(S, ridx, a.src, a.dst, a.req, a.shallow, a.idx).missing = {} \/ Say("VERDICT", "C11", "MissingOnBothSidesNotReported")))
     /\ (op = "TransferBegin" =>
           /\ ((~Refusal(L) => C12_StaleCleared(S, a.dst, a.req, a.idx, ridx')) \/ Say("VERDICT", "C12", "StaleIndexNotCleared"))
           /\ (C12_XferNoStaleDir(S, a, L) \/ Say("VERDICT", "C12", "StaleDirReported"))
